@@ -52,14 +52,15 @@ type dEnumItem struct {
 	Val  int64  `json:"val"`
 }
 type dTypeDecl struct {
-	Name    string      `json:"name"`
-	Kind    string      `json:"kind"` // type table enum alias union
-	Attrs   dAttrs      `json:"attrs"`
-	Fields  []dField    `json:"fields"`
-	Items   []dEnumItem `json:"items"`
-	Alias   dType       `json:"alias"`
-	Members []dType     `json:"members"`
-	Nested  []dTypeDecl `json:"-"` // types declared inside this one (the model sees them flattened: Outer.Inner)
+	Name        string      `json:"name"`
+	Kind        string      `json:"kind"` // type table enum alias union
+	Attrs       dAttrs      `json:"attrs"`
+	Fields      []dField    `json:"fields"`
+	Items       []dEnumItem `json:"items"`
+	Alias       dType       `json:"alias"`
+	Members     []dType     `json:"members"`
+	Nested      []dTypeDecl `json:"-"` // types declared inside this one (the model sees them flattened: Outer.Inner)
+	Placeholder bool        `json:"-"` // written `!type Name: ...` (a further declaration of a type declared in full elsewhere)
 }
 type dChoice struct {
 	Cond string  `json:"cond"`
@@ -82,13 +83,13 @@ type dParam struct {
 	Attrs dAttrs `json:"attrs"`
 }
 type dEp struct {
-	shortcut bool // written `Name: ...` on one line (no statement)
-	Name   string   `json:"name"`
-	Long   string   `json:"long"`
-	Params []dParam `json:"params"`
-	Attrs  dAttrs   `json:"attrs"`
-	Stmts  []dStmt  `json:"stmts"`
-	Event  bool     `json:"event"`
+	shortcut bool     // written `Name: ...` on one line (no statement)
+	Name     string   `json:"name"`
+	Long     string   `json:"long"`
+	Params   []dParam `json:"params"`
+	Attrs    dAttrs   `json:"attrs"`
+	Stmts    []dStmt  `json:"stmts"`
+	Event    bool     `json:"event"`
 }
 type dSeg struct {
 	Lit string `json:"lit"` // unescaped literal text
@@ -128,13 +129,13 @@ type dSub struct {
 type dApp struct {
 	Collector []dTemplate `json:"collector"`
 	Subs      []dSub      `json:"subs"`
-	Parts  []string    `json:"parts"`
-	Long   string      `json:"long"`
-	Attrs  dAttrs      `json:"attrs"`
-	Mixins [][]string  `json:"mixins"`
-	Types  []dTypeDecl `json:"types"`
-	Eps    []dEp       `json:"eps"`
-	Rest   []dRest     `json:"rest"`
+	Parts     []string    `json:"parts"`
+	Long      string      `json:"long"`
+	Attrs     dAttrs      `json:"attrs"`
+	Mixins    [][]string  `json:"mixins"`
+	Types     []dTypeDecl `json:"types"`
+	Eps       []dEp       `json:"eps"`
+	Rest      []dRest     `json:"rest"`
 }
 type dFile struct {
 	Apps []dApp `json:"apps"`
@@ -866,7 +867,9 @@ func (l *c02Layout) restAt(b *strings.Builder, ind string, n dRest, prefix strin
 	}
 }
 
-func (l *c02Layout) typeDecl(bp *strings.Builder, u string, t dTypeDecl) { l.typeDeclAt(bp, u, t, t.Name) }
+func (l *c02Layout) typeDecl(bp *strings.Builder, u string, t dTypeDecl) {
+	l.typeDeclAt(bp, u, t, t.Name)
+}
 
 // typeDeclAt writes a type at indentation ind; full is its name in the module (Outer.Inner for a nested type)
 func (l *c02Layout) typeDeclAt(bp *strings.Builder, ind string, t dTypeDecl, full string) {
@@ -884,6 +887,11 @@ func (l *c02Layout) typeDeclAt(bp *strings.Builder, ind string, t dTypeDecl, ful
 		kw := "!type"
 		if t.Kind == "table" {
 			kw = "!table"
+		}
+		if t.Placeholder {
+			// `!type Name: ...` - a declaration that says nothing about the fields
+			b.WriteString(u + kw + " " + esc(t.Name) + ": ...\n")
+			return
 		}
 		b.WriteString(u + kw + " " + esc(t.Name) + l.inline(t.Attrs, tkv) + ":\n")
 		if !tkv {
